@@ -5,6 +5,7 @@ package main
 
 import (
 	"fmt"
+	"go/ast"
 	"os"
 	"go/constant"
 	"go/token"
@@ -626,6 +627,9 @@ func (ex *Exec) execFrom(st *State, b *ssa.BasicBlock, idx int, pred *ssa.BasicB
 					}
 					if c.val != nil {
 						c.st.top().vals[y] = c.val
+						if f := y.Common().StaticCallee(); f != nil {
+							c.st.top().names["call_"+f.Name()] = namedVal{v: c.val}
+						}
 					}
 					outs = append(outs, ex.execFrom(c.st, b, i+1, pred)...)
 				}
@@ -671,10 +675,13 @@ func (ex *Exec) step(st *State, in ssa.Instruction) []*State {
 	set := func(v ssa.Value, x *Val) { fr.vals[v] = x }
 	switch x := in.(type) {
 	case *ssa.DebugRef:
-		if id, ok := x.Expr.(interface{ String() string }); ok {
-			_ = id
+		if _, isIdent := x.Expr.(*ast.Ident); !isIdent {
+			break
 		}
 		if obj := x.Object(); obj != nil {
+			if vo, isVar := obj.(*types.Var); !isVar || vo.IsField() {
+				break
+			}
 			if v, ok := ex.tryVal(st, x.X); ok {
 				fr.names[obj.Name()] = namedVal{v: v, isAddr: x.IsAddr}
 			}
